@@ -380,6 +380,27 @@ def install():
     sdeps.threading = shim
     xtokens.threading = shim
     xtokens.fasteners = V.VFasteners()
+
+    # modification times: the real ones (nanosecond resolution, wall clock) or - scenario flag coarse_mtime - a coarse clock on which
+    # everything an execution does happens within one tick (file systems with a 1 s or 2 s resolution)
+    class _PathProxy:
+        def __getattr__(self, k):
+            return getattr(os.path, k)
+
+        @staticmethod
+        def getmtime(p):
+            if V.W is not None and getattr(V.W, "coarse_mtime", False) and str(p).startswith(V.W.root):
+                os.stat(p)      # (still fails when the file is gone)
+                return 1000000000.0
+            return os.path.getmtime(p)
+
+    class _OsProxy:
+        path = _PathProxy()
+
+        def __getattr__(self, k):
+            return getattr(os, k)
+
+    xtokens.os = _OsProxy()
     # fasteners.InterProcessLock itself becomes virtual (lock table of vworld): the scheduler-side lock class of the tree
     # (connectors.local.InterProcessLock, a subclass) then runs its own __enter__ / __exit__ on top of it
     import fasteners as _fasteners
@@ -482,6 +503,11 @@ def scenario_smoke(wd, result, proc):
 
 
 # ---------------------------------------------------------------------------------------------- abstract state (evidence)
+def _count(v):
+    """unfinishedJobs is a counter on the pinned tree; a change may well keep a collection instead"""
+    return len(v) if hasattr(v, "__len__") else v
+
+
 def abstract_state():
     """Hash of the property-relevant state after a step (for states/transitions counting)."""
     W = V.W
@@ -502,6 +528,6 @@ def abstract_state():
     toks = tuple((p.pid, t.available) for p, t in W.tokens)
     ntok = sum(1 for m in mk if m.endswith(".token"))
     procs = tuple(sorted((v.exited, v.body_running) for v in W.procs.values()))
-    unfinished = tuple(getattr(x, "unfinishedJobs", None) for x in W.xps)
+    unfinished = tuple(_count(getattr(x, "unfinishedJobs", None)) for x in W.xps)
     pending = tuple(sorted(a.kind for a in V.HUB.actors if not a.dead and a.proc.alive and a.enabled()))
     return hash((tuple(sorted(jobs, key=repr)), toks, ntok, procs, unfinished, pending))
